@@ -173,7 +173,7 @@ impl Clone for Val {
 
 impl PartialEq for Val {
     fn eq(&self, o: &Val) -> bool {
-        self.v == o.v
+        self.v == o.v && !world::with(|w| w.val_eq_never)
     }
 }
 
@@ -220,8 +220,22 @@ impl Hash for PKey {
     }
 }
 
-#[derive(Debug, Clone, Copy, PartialEq, Default)]
+/// Plain value: no drop glue, but NOT `Copy`, with an observable hand-written `Clone` (a clone of
+/// a collection must call it once per element) and the same NaN-like switch as `Val`.
+#[derive(Debug, Default)]
 pub struct PVal(pub u64);
+
+impl Clone for PVal {
+    fn clone(&self) -> PVal {
+        world::callback(Class::CloneV);
+        PVal(self.0)
+    }
+}
+impl PartialEq for PVal {
+    fn eq(&self, o: &PVal) -> bool {
+        self.0 == o.0 && !world::with(|w| w.val_eq_never)
+    }
+}
 
 impl ValT for PVal {
     const TRACKED: bool = false;
